@@ -187,10 +187,15 @@ def make_pop_body(kind, n_workers, n_queued, producers, offset_opts=(0, 2), coar
         for q in range(n_queued):
             how = sx.choose(["enqueue", "add-waiting"], f"q{q}.how")
             v = sx.sym_real(f"q{q}_x")
+            pd, ua = {"x": v, "c": "b", "n": None}, {"q": q}
             if how == "enqueue":
-                main.enqueue_trial({"x": v, "c": "b", "n": None}, user_attrs={"q": q})
+                main.enqueue_trial(pd, user_attrs=ua)
             else:
-                main.add_trial(create_trial(state=TrialState.WAITING, user_attrs={"q": q}, system_attrs={"fixed_params": {"x": v, "c": "b", "n": None}}))
+                main.add_trial(create_trial(state=TrialState.WAITING, user_attrs=ua, system_attrs={"fixed_params": pd}))
+            # the caller goes on using (and changing) its own dicts, e.g. a sweep that updates one dict in place: the queue keeps what
+            # was enqueued
+            pd["x"], pd["c"], pd["n"] = -7.0, "a", "z"
+            ua["q"] = "changed-by-caller-after-enqueue"
             num = main._storage.get_all_trials(sid, deepcopy=False)[-1].number
             qvals[num] = v
         # coarse: scheduling points only before the calls that read or write the queue (the other storage calls of ask() touch the
